@@ -1,3 +1,4 @@
+import GrmVerif.Extracted
 import GrmVerif.Model.Recover
 import GrmVerif.Drive.C08
 import GrmVerif.Drive.C01
@@ -70,6 +71,13 @@ def toRepair (x : Nat × Nat) : Repair :=
   | 0 => .insert x.2
   | 1 => .delete
   | _ => .shift
+
+/-- the lexemes named by the Delete/Shift entries of a reported sequence are the input lexemes from
+the error position onwards, in order -/
+def lexemesOk : Nat → List (Nat × Nat) → Bool
+  | _, [] => true
+  | pos, (0, _) :: rs => lexemesOk pos rs
+  | pos, (_, x) :: rs => x == pos && lexemesOk (pos + 1) rs
 
 def repStr : Repair → String
   | .insert t => s!"I{t}"
@@ -172,7 +180,10 @@ partial def judge (X : Ctx) (which : Nat) (k : Nat) (i : Inp) : List String :=
         let acc := if which != 5 then acc else
           acc ++ (seqs.filterMap (fun s =>
             if validSeq X.G X.A w N_SHIFTS start s then none
-            else some s!"V fail repair-does-not-repair input={k} w={w} error={n} at={e.laidx} seq={s.map repStr}"))
+            else some s!"V fail repair-does-not-repair input={k} w={w} error={n} at={e.laidx} seq={s.map repStr}")) ++
+          (e.seqs.filterMap (fun s =>
+            if lexemesOk e.laidx s then none
+            else some s!"V fail repair-names-the-wrong-lexeme input={k} w={w} error={n} at={e.laidx} seq={s}"))
         -- C06: the set and its order
         let acc := if which != 6 || seqs.isEmpty then acc else
           let costs := seqs.map (seqCost w X.cost e.laidx)
@@ -192,8 +203,9 @@ partial def judge (X : Ctx) (which : Nat) (k : Nat) (i : Inp) : List String :=
             (if nodup then [] else [s!"V fail repair-reported-twice input={k} w={w} error={n}"]) ++
             (if noEof then [] else [s!"V fail eof-inserted input={k} w={w} error={n}"]) ++
             (if sorted then [] else [s!"V fail repairs-not-ranked-as-documented input={k} w={w} error={n} keys={keys}"])
-          let refv := if c0 > X.cap then [] else
-            match refRepairs X.G X.A w X.cost N_SHIFTS start c0 with
+          let refv := if c0 > X.cap then ["C errors_above_the_cost_cap 1"] else
+            "C errors_decided_by_the_reference 1" ::
+            match refRepairs X.G X.A w X.cost N_SHIFTS GrmVerif.Extracted.TRY_PARSE_AT_MOST start c0 with
             | none => [s!"V fail reported-cost-below-every-valid-repair?? input={k} w={w} error={n} cost={c0}"]
             | some (cm, rs) =>
               if cm < c0 then [s!"V fail cheaper-repair-exists input={k} w={w} error={n} at={e.laidx} reported-cost={c0} min-cost={cm} e.g.={(rs.headD []).map repStr}"]
@@ -235,7 +247,9 @@ def handle (args : List Nat) : String :=
           let vs := (List.range inps.length).flatMap (fun k =>
             let i := inps.getD k ⟨[], 0, none, []⟩
             if i.kind != 1 then [] else judge X which k i)
-          if vs.isEmpty then "V ok" else "\n".intercalate vs
+          let fails := vs.filter (fun l => !l.startsWith "C ")
+          let cnts := vs.filter (fun l => l.startsWith "C ")
+          "\n".intercalate ((if fails.isEmpty then ["V ok"] else fails) ++ cnts)
       | _ => "bad-request"
 
 end GrmVerif.Drive.C05
